@@ -296,6 +296,21 @@ func (p *purity) mutations(fn *ssa.Function, taintedParams map[int]bool, depth i
 					}
 				}
 				if callee == nil {
+					// a function-typed parameter: the functions the module's call sites hand in for it
+					if prm, ok := cc.Value.(*ssa.Parameter); ok {
+						if ts := c.funcArgTargets()[prm]; len(ts) > 0 {
+							for _, t := range ts {
+								tp := map[int]bool{}
+								for _, i := range sharedArgs {
+									tp[i] = true
+								}
+								for _, m := range p.mutations(t, tp, depth+1) {
+									out = append(out, "via "+c.FuncKey(t)+": "+m)
+								}
+							}
+							continue
+						}
+					}
 					add(ins.Pos(), "caller memory passed to a dynamic call")
 					continue
 				}
